@@ -108,7 +108,51 @@ class PassLog:
         self.log = []
         self.depth = 0
 
+    def _install_oracles(self):
+        """record the random layouts drawn by placer.Random and the answers of the GraphMatcher used
+        by placer.Subgraph (both are oracles of the placer models)"""
+        import networkx as nx_
+        from qibo.transpiler import placer as PL
+        self.oracle = {"random": [], "subgraph": []}
+        self._saved_state_fn = PL._check_backend_and_local_state
+        orc = self.oracle
+
+        class Recording:
+            def __init__(self, inner):
+                self._inner = inner
+
+            def choice(self, *a, **k):
+                r = self._inner.choice(*a, **k)
+                orc["random"].append([int(x) for x in r])
+                return r
+
+            def __getattr__(self, nm):
+                return getattr(self._inner, nm)
+
+        def state_fn(seed, backend=None):
+            b, st = self._saved_state_fn(seed, backend=backend)
+            return b, Recording(st)
+
+        PL._check_backend_and_local_state = state_fn
+        GM = nx_.algorithms.isomorphism.GraphMatcher
+        self._saved_mono = GM.subgraph_is_monomorphic
+        s_mono = self._saved_mono
+
+        def mono(self_):
+            r = s_mono(self_)
+            orc["subgraph"].append((bool(r), dict(self_.mapping) if r else None))
+            return r
+
+        GM.subgraph_is_monomorphic = mono
+
+    def _remove_oracles(self):
+        import networkx as nx_
+        from qibo.transpiler import placer as PL
+        PL._check_backend_and_local_state = self._saved_state_fn
+        nx_.algorithms.isomorphism.GraphMatcher.subgraph_is_monomorphic = self._saved_mono
+
     def __enter__(self):
+        self._install_oracles()
         for cls in self.classes:
             orig = cls.__call__
             self.saved[cls] = orig
@@ -118,6 +162,8 @@ class PassLog:
                 self.depth += 1
                 try:
                     if top:
+                        self.oracle["random"].clear()
+                        self.oracle["subgraph"].clear()
                         before = dict(wires=list(circuit.wire_names), n=circuit.nqubits, ids=[id(g) for g in circuit.queue],
                                       queue=list(circuit.queue), obj=circuit,
                                       conn=None if getattr(self_, "connectivity", None) is None else
@@ -128,6 +174,7 @@ class PassLog:
                         snap = None if rc is None else dict(wires=list(rc.wire_names), ids=[id(g) for g in rc.queue],
                                                             n=rc.nqubits, queue=list(rc.queue))
                         self.log.append(dict(cls=_cls.__name__, before=before, result=res, snap=snap,
+                                             oracle={k: list(v) for k, v in self.oracle.items()},
                                              after_wires=list(circuit.wire_names),
                                              after_ids=[id(g) for g in circuit.queue], after_n=circuit.nqubits))
                     return res
@@ -138,6 +185,7 @@ class PassLog:
         return self
 
     def __exit__(self, *a):
+        self._remove_oracles()
         for cls, orig in self.saved.items():
             cls.__call__ = orig
 
@@ -296,7 +344,18 @@ def end_to_end(spec, info):
         if not sat:
             m2 = any(isinstance(g, gates.M) and len(g.qubits) == 2 and
                      not dev.has_edge(out.wire_names[g.qubits[0]], out.wire_names[g.qubits[1]]) for g in out.queue)
-            key = "is_satisfied:meas2" if m2 else "is_satisfied:" + tag
+            # meas2 = the ONLY reason for the rejection is a two-qubit measurement off the edges
+            others_ok = True
+            try:
+                from qibo.transpiler.asserts import assert_decomposition, assert_placement
+                assert_placement(out, dev)
+                assert_decomposition(out, nat)
+                others_ok = all(isinstance(g, gates.M) or len(g.qubits) < 2 or
+                                (len(g.qubits) == 2 and dev.has_edge(out.wire_names[g.qubits[0]], out.wire_names[g.qubits[1]]))
+                                for g in out.queue)
+            except Exception:
+                others_ok = False
+            key = "is_satisfied:meas2" if (m2 and others_ok) else "is_satisfied:" + tag
             if any(k.startswith("nonadjacent_swap:ShortestPaths") for k, _, _ in bad):
                 key = "is_satisfied:nonadjacent_swap:ShortestPaths"
             bad.append((key, "Passes.is_satisfied(output) is False for the pipeline's own output", {}))
@@ -456,14 +515,22 @@ def make_histories(tier, rng):
         how = "id" if h % 2 == 0 else rng.choice(["perm", "str", "mixed"])
         g = R.label_variants(g0, rng, how)
         nodes = list(g.nodes())
+        on = None
+        if h % 4 == 3 and n >= 4 and devname != "star5":
+            # the pipeline works on a connected restriction of the device (on_qubits)
+            sub = max(nx.connected_components(g.subgraph(rng.sample(nodes, n - 1))), key=len)
+            if len(sub) >= 3:
+                on = [v for v in nodes if v in sub]
+                rng.shuffle(on)
+        avail_nodes = on if on is not None else nodes
         placers, routers = pipelines_for(devname, n, rng)
         placer = rng.choice([None, None] + placers)
         router = rng.choice(routers)
         natn = rng.choice(nat_names)
         circuits = []
         for c in range(rng.randint(2, 4)):
-            k = rng.choice([3, 4, 5]) if devname == "star5" else rng.randint(2, n)
-            wn = rng.sample(nodes, k)
+            k = rng.choice([3, 4, 5]) if devname == "star5" else rng.randint(2, len(avail_nodes))
+            wn = rng.sample(avail_nodes, k)
             if c == 0 and k >= 2:       # first call: wire names certainly out of device order
                 wn = sorted(wn, key=nodes.index, reverse=True)
             ng = rng.randint(2, 8)
@@ -478,7 +545,7 @@ def make_histories(tier, rng):
             if rng.random() < 0.5:
                 gs += R.gen_trailing(rng, k)
             circuits.append(dict(k=k, wire_names=wn, gates=gs))
-        out.append((devname, dict(nodes=nodes, edges=[list(e) for e in g.edges()], on_qubits=None,
+        out.append((devname, dict(nodes=nodes, edges=[list(e) for e in g.edges()], on_qubits=on,
                                   pipeline={"pre": True, "placer": placer, "router": router, "natives": natn},
                                   circuits=circuits)))
     return out
@@ -578,11 +645,26 @@ def coq_terms(spec, info):
             ps.append(f"(PPre {R.nl([num[_h(w)] for w in e['snap']['wires'][len(b['wires']):]])})")
         elif cls in ("Random", "Subgraph", "ReverseTraversal", "StarConnectivityPlacer"):
             ps.append(f"(PPlace {R.nl([num[_h(w)] for w in e['after_wires']])})")
+            from qibo import gates as _g
+            pairs = [sorted(x.qubits) for x in b["queue"] if not isinstance(x, _g.M) and len(x.qubits) == 2]
+            cpairs = "[" + "; ".join(f"({a_}, {b_})" for a_, b_ in pairs) + "]"
+            real_w = R.nl([num[_h(w)] for w in e["after_wires"]])
+            if cls == "Random":
+                samples = "[" + "; ".join(R.nl(m_) for m_ in e["oracle"]["random"]) + "]"
+                extra.append(("random", f"random_placer_check {d} {cpairs} {samples} {real_w}"))
+            elif cls == "Subgraph":
+                ident = R.nl(range(len(dnodes)))
+                ans = "[" + "; ".join(
+                    f"(true, {R.nl([mp_[v] for v in dnodes])})" if ok_ else f"(false, {ident})"
+                    for ok_, mp_ in e["oracle"]["subgraph"]) + "]"
+                extra.append(("subgraph", f"subgraph_placer_check {d} {cpairs} {ans} {real_w}"))
+            elif cls == "ReverseTraversal":
+                extra.append(("reverse", f"reverse_traversal_check {ccirc(tags, num, b['wires'], b['queue'])} {real_w}"))
             if cls == "StarConnectivityPlacer":
                 mids = [v for v in dnodes if dev.degree(v) == len(dnodes) - 1]
                 if len(mids) == 1 and mids[0] in b["wires"]:
-                    extra.append(f"star_placer_check {b['wires'].index(mids[0])} {ccirc(tags, num, b['wires'], b['queue'])} "
-                                 f"{R.nl([num[_h(w)] for w in e['after_wires']])}")
+                    extra.append(("star", f"star_placer_check {b['wires'].index(mids[0])} {ccirc(tags, num, b['wires'], b['queue'])} "
+                                          f"{R.nl([num[_h(w)] for w in e['after_wires']])}"))
         elif cls in ("Sabre", "ShortestPaths", "StarConnectivityRouter"):
             routed, layout = e["result"]
             try:
@@ -846,7 +928,7 @@ def main(run):
             exprs.append(t["term"])
             if t["restrict"]:
                 exprs.append(t["restrict"])
-            exprs += t["extra"]
+            exprs += [x_[1] for x_ in t["extra"]]
         vals = run.coq_eval(f"C11_cases_{b // CH}.v", HEADER, exprs, timeout=900)
         run.oblige(f"model_replay_{b // CH}", vals is not None, "correspondence")
         if vals is None:
@@ -885,17 +967,20 @@ def main(run):
                 stats["restrictions_compared"] = stats.get("restrictions_compared", 0) + 1
                 if not ok:
                     found.setdefault("model:restrict", ("restrict_connectivity_qubits model and implementation disagree", {"spec": spec, "model_only": True}))
-            for _x in t["extra"]:
+            for kind_, _x in t["extra"]:
                 okx = parse_coq(next(it))
-                stats["star_placer_model_compared"] = stats.get("star_placer_model_compared", 0) + 1
-                if not okx:
-                    found.setdefault("model:star_placer", ("StarConnectivityPlacer model and implementation disagree", {"spec": spec, "model_only": True}))
+                stats[f"{kind_}_placer_model_compared"] = stats.get(f"{kind_}_placer_model_compared", 0) + 1
+                same_, perms_ = okx if isinstance(okx, tuple) else (okx, True)
+                if not same_:
+                    found.setdefault(f"model:{kind_}_placer", (f"{kind_} placer: model and implementation disagree on the wire names", {"spec": spec, "model_only": True}))
+                if not perms_:
+                    found.setdefault(f"placer_oracle:{kind_}", (f"{kind_} placer: a sampled layout / matcher mapping is not a bijection onto 0..n-1", {"spec": spec}))
     default_transpiler_cases(run, found, stats, rng)
     restrict_cases(run, found, stats, rng)
     for key, (what, rp) in sorted(found.items()):
         run.find(key, what, rp, concrete=not rp.get("model_only", False))
     run.notes["stats"] = stats
-    run.not_proved += ["placers Subgraph (isomorphism search), Random (sampling), ReverseTraversal are not modelled: only their contract, checked per run (StarConnectivityPlacer is modelled concretely and proved to meet the contract)",
+    run.not_proved += ["the quality of the placers (Random's cost minimisation, Subgraph's isomorphism search via networkx GraphMatcher, the numpy sampler) is not a subject of the property: the sampled layouts / matcher answers are oracle data fed to the placer models (random_placer, subgraph_placer, reverse_traversal_placer, star_placer), whose outputs are proved to be valid placements for ANY bijective layout and compared with every real placer execution",
                        "the unroller's semantic premise (C10) and the router's (C09) are premises of pipeline_ok",
                        "operator equality for pipelines with an unroller is tested with tolerance 1e-7, not proved"]
     return run.finish(level="proof", rule=RULE)
